@@ -27,7 +27,7 @@ LEVEL = {
  "C13": ('theorem: validation accepts iff the playlist is consistent (groups defined, CLOSED-CAPTIONS=NONE exclusive in either order, session data unique); rendition lookup = referenced renditions except the stated known class; correspondence exhaustive over small configurations, size sweeps, and MasterPlaylistBuilder call sequences', "3 (C13)"),
  "C14": ("theorems: per-tag acceptance equals the attribute rules over all attribute lists for the tags modelled; correspondence exhaustive over presence subsets for text and builders", "3 (C14)"),
  "C15": ("theorem: for every string, not both parsers accept; accepted master texts contain no media item or bare URI, accepted media texts no master item and a TARGETDURATION item; foreign-tag tables regenerated from source; correspondence exhaustive over short line sequences", "3 (C15)"),
- "C16": ("theorems: accepted extension keeps the common segments (numbers and content); appending lines appends items; a text cut after a segment tag (also with non-URI lines behind it: C16_cut_pending) or after EXT-X-STREAM-INF is rejected; correspondence + oracle over every prefix and slide, incl. deterministic rotations of three / four key formats", "3 (C16)"),
+ "C16": ("theorems: accepted extension keeps the common segments (numbers and content); appending lines appends items; a text cut after a segment tag (also with non-URI lines behind it: C16_cut_pending) or after EXT-X-STREAM-INF is rejected; the slid window of every parse result with durations below 2^20 s re-parses to the same remaining segments (C16_slide_parsed); correspondence + oracle over every prefix and slide, incl. deterministic rotations of three / four key formats", "3 (C16)"),
  "C17": ('theorem over the regenerated table: every hand-written into_owned rebuilds each declared field from the field of the same name and variant; the three entry points are one function in the model; correspondence: ==, dump and text of x, clone, into_owned for parsed values, for playlists built by builder call sequences and for values built through the public constructors', "3 (C17)"),
  "C18": ('theorems: integer / hex / byte range / resolution / channels round trips, enum tables injective (regenerated), quote/unquote, every tag type written and read back through its own parser; parse (print x) = x for EVERY finite f32 of either sign and for every Duration below 2^20 s with nanosecond precision (C18_f32_text, C18_uf32_text, C18_parsed_float, C18_duration_text: rounding near a canonical value, the digit search always returns digits, the written text is read as those digits), bounded decimal grids kept as sweeps; the three-decimal FRAME-RATE writer for every rate with at most three decimals below 8192 (C18_frame_rate_3dec); the std float conversions themselves are modelled (validated against rustc), not verified; correspondence with per-type expectations and API-built values', "3 (C18)"),
  "C19": ("theorems: the modelled equality/ordering/hash of KeyFormatVersions (buffer + length) and of the float wrappers are coherent; derived impls are structural; every public type's derive list regenerated and checked; correspondence: laws on triples of the implementation incl. API-built values (Number IVs, KeyFormat::Other, stale buffers, built segments)", "3 (C19)"),
